@@ -1575,6 +1575,18 @@ func (it *interp) doCall(st *state, fr *frame, in *ssa.Call) bool {
 			}
 		}
 	}
+	// havoc of heap fields: values this path stored into type.field locations are forgotten when an
+	// opaque library callee may (transitively) store the same field
+	if ev.Fn != nil && it.prog.isLib(ev.Fn) {
+		for f := range it.prog.mayStore(ev.Fn) {
+			pre := f + "."
+			for mk := range st.mem {
+				if mk == f || strings.HasPrefix(mk, pre) || strings.HasPrefix(f, mk+".") {
+					delete(st.mem, mk)
+				}
+			}
+		}
+	}
 	if it.opts.CallResult != nil {
 		if r := it.opts.CallResult(ev); r != nil {
 			ev.Res = r
@@ -1620,6 +1632,70 @@ func (it *interp) execDeferred(st *state, fr *frame, d *Event) bool {
 	ev.Res = &Expr{Op: "call", Name: ev.Callee + "@deferred:" + it.siteID(d.Instr), Args: ev.Args}
 	st.events = append(st.events, &ev)
 	return false
+}
+
+// mayStore: type.field keys that fn may store, transitively through static library calls and the
+// frozen dynamic-dispatch / re-entry tables.
+func (p *Program) mayStore(fn *ssa.Function) map[string]bool {
+	if p.storeCache == nil {
+		p.storeCache = map[*ssa.Function]map[string]bool{}
+		direct := map[*ssa.Function]map[string]bool{}
+		for _, f := range p.Funcs {
+			m := map[string]bool{}
+			for _, b := range f.Blocks {
+				for _, in := range b.Instrs {
+					st, ok := in.(*ssa.Store)
+					if !ok {
+						continue
+					}
+					// key of the stored address when it is a (nested) field of a non-local base
+					var parts []string
+					v := st.Addr
+					for {
+						fa, ok := v.(*ssa.FieldAddr)
+						if !ok {
+							break
+						}
+						parts = append([]string{fieldOf(fa).Name()}, parts...)
+						if inner, ok := fa.X.(*ssa.FieldAddr); ok {
+							v = inner
+							continue
+						}
+						if _, isAlloc := fa.X.(*ssa.Alloc); !isAlloc {
+							parts = append([]string{typeShort(fa.X.Type())}, parts...)
+							m[strings.Join(parts, ".")] = true
+						}
+						break
+					}
+				}
+			}
+			direct[f] = m
+		}
+		cg := buildCallGraph(p)
+		for _, f := range p.Funcs {
+			p.storeCache[f] = map[string]bool{}
+			for k := range direct[f] {
+				p.storeCache[f][k] = true
+			}
+		}
+		for changed := true; changed; {
+			changed = false
+			for _, f := range p.Funcs {
+				for _, e := range cg.Edges[f] {
+					if e.Async {
+						continue
+					}
+					for k := range p.storeCache[e.To] {
+						if !p.storeCache[f][k] {
+							p.storeCache[f][k] = true
+							changed = true
+						}
+					}
+				}
+			}
+		}
+	}
+	return p.storeCache[fn]
 }
 
 // seeThrough: a library function that is not an anchor of the reference tree (an extracted helper) is
